@@ -1070,7 +1070,7 @@ static int dd_type(struct demangle_data *dd)
 		}
 		else if (c == 'D') {
 			c = dd_peek(dd, 1);
-			if (strchr(D_types, c)) {
+			if (c && strchr(D_types, c)) {
 				dd_consume_n(dd, 2);
 				ret = 0;
 			}
